@@ -2,7 +2,7 @@
    the text layer - serde_json, ryu, the svg crate's writer - is modelled, not verified). *)
 From Coq Require Import ZArith NArith List Bool Reals Floats String. Import ListNotations.
 From PV Require Import Num NumR model.Tables model.Spec model.Geom model.Optimiser model.OptSpec model.Pipeline model.Svg model.Json gen.GenTables gen.GenSchema proofs.OptStruct proofs.OptLoop proofs.LatticeFacts proofs.TablesFacts proofs.PipelineFacts proofs.OutputFacts.
-From PV Require Import gen.GenFns proofs.SourceFacts.
+From PV Require Import gen.GenFns model.Iter model.Pipeline proofs.ListLemmas proofs.SvgSource.
 From PV Require Import gen.GenFns proofs.SvgSource.
 
 Theorem C11_json_roundtrip :
@@ -52,10 +52,6 @@ Theorem C11_svg_entries_are_source :
 Proof. exact svg_entries_are_source. Qed.
 Print Assumptions C11_svg_entries_are_source.
 
-Theorem C11_source_translated :
-  gen_fns_problem = ""%string.
-Proof. exact source_translated. Qed.
-Print Assumptions C11_source_translated.
 
 
 Theorem S_svg_uses_are_source :
@@ -70,4 +66,11 @@ Theorem S_svg_elements_placements :
     svg_cell_uses NN c ++ svg_mol_uses NN c rel.
 Proof. exact svg_elements_placements. Qed.
 Print Assumptions S_svg_elements_placements.
+
+
+Theorem C11_svg_source_translated :
+  translated_gen_svg_uses = true /\ translated_gen_lj_svg_uses = true /\
+    translated_gen_svg_entries = true.
+Proof. exact svg_source_translated. Qed.
+Print Assumptions C11_svg_source_translated.
 
